@@ -83,4 +83,29 @@ end
 def closeAcceptanceRate {α : Type} [Div α] [OfScientific α] (toα : Nat → α) (accepted completed : Nat) : α :=
   if completed = 0 then 0.0 else toα accepted / toα completed
 
+/-! ### sampler objects that are used for several runs
+
+  `sample()` builds its run state in `_init_sampler` from the call's arguments and the object's
+  random generator; everything else an earlier run left on the object (`accepted_proposals`, the
+  per-dimension part of an RWMH step, `max_time`, the samples handle, tuning histories, …) is
+  re-initialised. -/
+
+/-- what a sampler object carries from one `sample()` call to the next -/
+structure SamplerObj (R L : Type) where
+  rng : R      -- the generator (its state advances)
+  left : L     -- every other attribute an earlier run left behind
+
+/-- one `sample()` call; `run args rng` = (file, generator afterwards, attributes left behind) -/
+def sampleCall {A R L F : Type} (run : A → R → F × R × L) (o : SamplerObj R L) (a : A) : F × SamplerObj R L :=
+  let r := run a o.rng
+  (r.1, { rng := r.2.1, left := r.2.2 })
+
+/-- a history of calls on one object: the files written, oldest first, and the object afterwards -/
+def session {A R L F : Type} (run : A → R → F × R × L) (o : SamplerObj R L) : List A → List F × SamplerObj R L
+  | [] => ([], o)
+  | a :: rest =>
+      let r := sampleCall run o a
+      let q := session run r.2 rest
+      (r.1 :: q.1, q.2)
+
 end HmcVerif
